@@ -93,6 +93,9 @@ func (r *Reader) readIloc(b *box) (err error) {
 				ol.length = uintN(ilb.lengthSize, buf[i:i+int(ilb.lengthSize)])
 				i += int(ilb.lengthSize)
 				ent.firstExtent = ol
+			} else {
+				// only the first extent is kept, but every extent record is stepped over
+				i += int(ilb.offsetSize) + int(ilb.lengthSize)
 			}
 		}
 		if optionSpeed == 0 {
